@@ -1056,6 +1056,15 @@ def collect(ctx, res=None):
 def seq_len_poly(ctx, t):
     """length polynomial of a slice / array / Vec / str term"""
     sy = ctx.sy
+    tm_ = t
+    while tm_[0] in ("ref", "deref"):
+        tm_ = tm_[1]
+    if tm_[0] == "mut" and strip(tm_[2])[0] == "call" and short(strip(tm_[2])[1]) in ("Vec::<T>::new", "Vec::<T>::with_capacity"):
+        # a vector that is filled after its creation: its own length symbol (named after what is pushed), never the
+        # length of the empty vector it started as
+        nm_ = "len(%s)" % sy.uniq(tm_[1], sy.mut_name(tm_))
+        sy.sym_box.setdefault(nm_, (0, (1 << 63) - 1))
+        return Poly.sym(nm_)
     t0 = unmut(t)
     while t0[0] == "cast" and "Unsize" in str(t0[1]):
         t0 = unmut(t0[2])           # `&[u8; N]` coerced to `&[u8]`: same elements
